@@ -16,8 +16,8 @@ import LitexModel.Soc.Cm
            verdict = ok | rej:<Err>;  fin = ok | rej:<Err> (do_finalize);  region = name:origin:size:cached:linker:decode
   call dec <aw> <dw> <origin> <size> <decode> <a> <a> ...     -> "u" (unaligned: SoCError) or one 0/1 per address
   call decall <aw> <dw> <origin> <size> <decode>              -> same for every word address 0 .. 2^(aw-shift)-1
-  call loc csr <data_width> <address_width> <alignment> <paging> ; <op> ; ...
-  call loc irq <n_irqs> ; <op> ; ...
+  call loc csr <data_width> <address_width> <alignment> <paging> [<name>:<n> ...] ; <op> ; ...   (reserved_csrs)
+  call loc irq <n_irqs> [<name>:<n> ...] ; <op> ; ...                                          (reserved_irqs)
       op:  A <name> <n|N> <use_loc_if_exists>   add;   P <name>   address_map;   E   enable
       ->   ctor-rej   |   <n_locs> # <verdicts> # name:loc name:loc ...
   call cm <entry> ... ; <op> ; ...        entry = uid:name:num[:sub,sub,...]
@@ -78,6 +78,12 @@ def pLocOp : List String → Option (LocOp Nat)
   | ["E"] => some .enable
   | _ => none
 
+/-- `name:n` entry of `reserved_csrs` / `reserved_irqs` (written before the first `;`). -/
+def pReserved (w : String) : Option (Nat × Int) :=
+  match w.splitOn ":" with
+  | [n, k] => do some (← n.toNat?, ← k.toInt?)
+  | _ => none
+
 def callLoc (h : Except LocErr (LocH Nat)) (ops : List (LocOp Nat)) : String :=
   match h with
   | .error _ => "ctor-rej"
@@ -135,11 +141,17 @@ def call (args : List String) : Option String :=
     let r : Region := { origin := ← o.toNat?, size := ← sz.toNat?, decode := ← pBool d }
     some (decBits aw dw r (List.range (2 ^ (aw - wordShift dw))))
   | "loc" :: "csr" :: dwid :: awid :: al :: pg :: rest => do
-    let ops ← ((splitSemi rest).filter (· ≠ [])).mapM pLocOp
-    some (callLoc (csrHandler Nat (← dwid.toNat?) (← awid.toNat?) (← al.toNat?) (← pg.toNat?)) ops)
+    match splitSemi rest with
+    | [] => none
+    | res :: ops =>
+      let ops ← (ops.filter (· ≠ [])).mapM pLocOp
+      some (callLoc (csrHandlerR Nat (← dwid.toNat?) (← awid.toNat?) (← al.toNat?) (← pg.toNat?) (← res.mapM pReserved)) ops)
   | "loc" :: "irq" :: n :: rest => do
-    let ops ← ((splitSemi rest).filter (· ≠ [])).mapM pLocOp
-    some (callLoc (irqHandler Nat (← n.toNat?)) ops)
+    match splitSemi rest with
+    | [] => none
+    | res :: ops =>
+      let ops ← (ops.filter (· ≠ [])).mapM pLocOp
+      some (callLoc (irqHandlerR Nat (← n.toNat?) (← res.mapM pReserved)) ops)
   | "cm" :: rest => do
     match splitSemi rest with
     | [] => none
